@@ -24,7 +24,7 @@ ASSUMPTIONS = [
     "collections.deque append/appendleft/popleft have their documented end-of-queue semantics",
     "StreamWriter.write buffers bytes in call order",
 ]
-FLOORS = {"C01.R1": 7, "C01.R2": 5, "C01.R3": 4, "C01.R4": 4, "C01.R5": 2, "C01.R6": 2, "C01.R7": 1, "C01.R8": 1, "C01.R9": 1, "C01.R10": 1}
+FLOORS = {"C01.R1": 7, "C01.R2": 5, "C01.R3": 4, "C01.R4": 4, "C01.R5": 2, "C01.R6": 2, "C01.R7": 1, "C01.R8": 1, "C01.R9": 1, "C01.R10": 1, "C01.R11": 1}
 
 QUEUE_READ_OK = {"len", "bool", "reversed", "list", "tuple", "iter", "enumerate"}
 MUTATORS = {"append", "appendleft", "pop", "popleft", "insert", "extend", "extendleft", "clear", "rotate", "remove", "reverse", "sort", "__setitem__", "__delitem__"}
@@ -42,6 +42,7 @@ def run(ctx):
     r4(ctx)
     r5(ctx)
     r6(ctx)
+    r11(ctx)
     from . import c07
     from .common import reuse
 
@@ -260,6 +261,22 @@ def r2(ctx):
 
 
 # ------------------------------------------------------------------------------------------ R3
+def r11(ctx):
+    """D15: a message that cannot be encoded is dropped - and the flush goes on.  From the handler of the encoding errors every
+    normal path reaches the loop again or an awaited drain of the rest; otherwise the messages accepted behind the faulty one
+    stay queued on a live connection until somebody happens to send again (and expire if nobody does)."""
+    R = "C01.R11"
+    drain = sock_fn(ctx, "_drain_message_queue")
+    m, g = drain.module, drain.cfg
+    hs = [h for h in drain.handlers() if any(t.split(".")[-1] in ("ValueError", "NotImplementedError") for t in h.meta["types"])]
+    ctx.require(hs, "socket._drain_message_queue: no handler for encoding errors (ValueError / NotImplementedError)")
+    pops = [n for n, c in drain.calls("_message_queue.popleft")]
+    again = [n.id for n, c in drain.calls("self._drain_message_queue") if n.awaits] + [n.id for n in pops]
+    for h in hs:
+        ok = bool(again) and g.all_paths_pass(h.id, [g.exit.id], again, NONEXC)
+        ctx.check(ok, R, "_drain_message_queue:encoding-error-does-not-end-the-flush", m, h.ast, "after an encoding error the rest of the queue is still flushed (the handler leads back to the loop or awaits a further drain)", "the handler falls out of the function: messages queued behind the unencodable one wait for the next send() or reconnect, and expire unsent if there is none")
+
+
 def r3(ctx):
     R = "C01.R3"
     swh = sock_fn(ctx, "send_with_header")
